@@ -207,6 +207,13 @@ def main(argv=None):
     except C.HarnessError as e:
         C.log("HARNESS-ERROR:", e)
         rc = 3
+    except SystemExit:
+        raise
+    except BaseException as e:   # never exit 1 without a VIOLATION line
+        import traceback
+        traceback.print_exc()
+        C.log("HARNESS-ERROR (unexpected exception):", repr(e))
+        rc = 3
     sys.exit(rc)
 
 
